@@ -42,7 +42,7 @@ func (c05) Batches(tier string, seed uint64) []core.Batch {
 
 func (c05) Mandatory(tier string) []string {
 	return []string{"accepted:grammar", "accepted:mutant", "accepted:raw", "accepted:exhaustive", "accepted:big", "big:field>=12KiB", "has:substvar", "has:qualifier", "has:version", "has:archlist", "has:negated-archlist",
-		"has:profiles", "has:non-ascii", "has:wildcard-arch", "arch:arity1", "arch:arity2", "arch:arity3", "arch:arity4", "arch:wildcard", "arch:real-port", "volume:dependency-fields-parsed-in-one-process"}
+		"has:profiles", "has:non-ascii", "has:wildcard-arch", "arch:arity1", "arch:arity2", "arch:arity3", "arch:arity4", "arch:wildcard", "arch:real-port", "volume:dependency-fields-parsed-in-one-process", "caller-edits-an-earlier-result"}
 }
 
 // normalised, comparable view of a parse result.
@@ -337,6 +337,29 @@ func (c05) fix(c *core.C, s, source string) {
 		if err := self.UnmarshalControl(mc); err != nil || normDep(&self) != n1 {
 			c.Failf("Parse(%q): decoding the value's own rendering %q back into the value gives a different structure (err %v):\n before: %s\n after:  %s", s, mc, err, n1, normDep(&self))
 		}
+	}
+	// the parsed value is the caller's: editing it in place (here: every qualifier and architecture of the second
+	// parse is overwritten) must not show in a later parse of the same text
+	edited := false
+	for _, rel := range d2.Relations {
+		for _, p := range rel.Possibilities {
+			if p.Arch != nil {
+				*p.Arch = dependency.Arch{ABI: "edited", OS: "by", CPU: "caller"}
+				edited = true
+			}
+			if p.Architectures != nil {
+				for k := range p.Architectures.Architectures {
+					p.Architectures.Architectures[k] = dependency.Arch{ABI: "edited", OS: "by", CPU: "caller"}
+					edited = true
+				}
+			}
+		}
+	}
+	if edited {
+		if d3, err := dependency.Parse(r1); err != nil || normDep(d3) != n1 {
+			c.Failf("after the caller edited the architectures of an earlier result in place, Parse(%q) gives (err %v)\n %s\nbefore it gave\n %s", r1, err, normDep(d3), n1)
+		}
+		c.Cover("caller-edits-an-earlier-result")
 	}
 	nontrivial := false
 	for _, rel := range d1.Relations {
